@@ -33,6 +33,8 @@ type Fx struct {
 	c             *Ctx
 	w             *World
 	fi            *FuncInfo
+	defensiveSeen map[string]bool
+	assertSeen    map[*AssertAt]bool
 	pkg           *packages.Package
 	info          *types.Info
 	entry         *State
@@ -123,6 +125,27 @@ func (fx *Fx) exec(st *State, s ast.Stmt) {
 		return
 	}
 	fx.curPos = s.Pos()
+	if fx.spec != nil && len(fx.spec.Asserts) > 0 {
+		if _, isBlock := s.(*ast.BlockStmt); !isBlock {
+			txt := fx.exprText(s)
+			for _, a := range fx.spec.Asserts {
+				if strings.HasPrefix(txt, a.Anchor) || (len(a.Anchor) > 60 && strings.HasPrefix(a.Anchor, txt)) {
+					if fx.assertSeen == nil {
+						fx.assertSeen = map[*AssertAt]bool{}
+					}
+					fx.assertSeen[a] = true
+					env := fx.specEnv(st, fx.entry, s.Pos())
+					phi := fx.specBool(env, a.C.Expr)
+					nm := a.C.Name
+					if nm == "" {
+						nm = a.Anchor
+					}
+					fx.c.oblige(st, "assert", "before("+nm+")", phi, a.C.Text, fx.w.pos(s.Pos()))
+					st.assume(phi)
+				}
+			}
+		}
+	}
 	switch s := s.(type) {
 	case *ast.BlockStmt:
 		fx.execBlock(st, s.List)
@@ -177,6 +200,23 @@ func (fx *Fx) exec(st *State, s ast.Stmt) {
 			fx.exec(st, s.Init)
 		}
 		cond := fx.eval(st, s.Cond)
+		if fx.spec != nil && len(fx.spec.Defensive) > 0 {
+			txt := fx.exprText(s.Cond)
+			for _, d := range fx.spec.Defensive {
+				if d == txt || (len(d) > 60 && d[:60] == txt) {
+					if fx.defensiveSeen == nil {
+						fx.defensiveSeen = map[string]bool{}
+					}
+					fx.defensiveSeen[d] = true
+					fx.c.oblige(st, "dead", "if("+txt+")", "(not "+cond.T+")", "the branch declared defensive is unreachable: "+txt, fx.w.pos(s.Pos()))
+					st.assume("(not " + cond.T + ")")
+					if s.Else != nil {
+						fx.exec(st, s.Else)
+					}
+					return
+				}
+			}
+		}
 		fx.branch(st, cond.T, func(t *State) { fx.exec(t, s.Body) }, func(e *State) {
 			if s.Else != nil {
 				fx.exec(e, s.Else)
